@@ -74,6 +74,12 @@ var c02 = gen.Register(&gen.Check[caseC02]{
 		if c.Alias == "" && rapid.IntRange(0, 5).Draw(t, "cp") == 0 {
 			c.Alias = "copy"
 		}
+		for _, bb := range []*pt.Base{&a, &b} {
+			if bb.Kind == "id" {
+				bb.Via = rapid.SampledFrom([]string{"coords", "comp", "mulnil"}).Draw(t, "idVia")
+				bb.ZeroRecv = gen.Chance(t, "zeroRecvId", 1, 3)
+			}
+		}
 		c.P = pt.WithSteps(t, a, 3, false)
 		c.Q = pt.WithSteps(t, b, 3, false)
 		if c.Alias != "self" && !c.Nil && gen.Chance(t, "aim", 1, 3) {
@@ -112,6 +118,7 @@ var c02 = gen.Register(&gen.Check[caseC02]{
 	},
 	Required: []string{"aimed-intermediate", "rel:independent", "rel:equal", "rel:negation", "rel:p-identity", "rel:q-identity", "rel:both-identity", "rel:self", "rel:nil", "rel:share-y", "rel:double-of", "result:identity"},
 	Run: func(c caseC02, o *gen.Obs) error {
+		hostileCaller()
 		p, err := pt.Build(c.P)
 		if err != nil {
 			o.Class("skipped:builder-error")
